@@ -459,11 +459,11 @@ func (e *env) bridgeCallCase(k bcCase) string {
 			rel = "receiver!=refund"
 		}
 		if err != nil {
-			e.rep.Fail(lib.Failure{Kind: "monitor", Sig: "C18:bridgecall:" + rel + ":error",
+			e.failSig(lib.Failure{Kind: "monitor", Sig: "C18:bridgecall:" + rel + ":error",
 				What:   "inbound bridge call with a failing contract call did not end in the designated refund: ExecuteClaim returned " + trunc(err.Error(), 120),
 				Replay: map[string]interface{}{"case": k, "error": err.Error()}})
 		} else if len(diff) > 0 {
-			e.rep.Fail(lib.Failure{Kind: "monitor", Sig: "C18:bridgecall:" + rel + ":diff",
+			e.failSig(lib.Failure{Kind: "monitor", Sig: "C18:bridgecall:" + rel + ":diff",
 				What:   "state after a tolerated bridge-call failure differs from the designated outcome (refund record funded by the deposit, nothing else)",
 				Replay: map[string]interface{}{"case": k, "diff(-designated,+real)": diff}})
 		}
